@@ -81,10 +81,10 @@ func init() {
 					"app": 2, "rem": 1},
 				Roots:   [][]RootSpec{{{K: "map", Addr: 1, TI: 2}}, {{K: "map", Addr: 1, TI: 2}}, {{K: "cmap", Addr: 1, TI: 3}}, {{K: "map", Addr: 0, TI: 2}}},
 				MaxBulk: 100, Keys: []int{12, 64, 400},
-				ValW:    valAll, MaxDepth: 2, MaxElems: 5, AcqW: [3]int{8, 1, 1},
-				DigRootsPct: 25, // "any hash distribution": colliding digests too (limit stays 255)
+				ValW: valAll, MaxDepth: 2, MaxElems: 5, AcqW: [3]int{8, 1, 1},
+				DigRootsPct:  25, // "any hash distribution": colliding digests too (limit stays 255)
 				HipGroupsPct: 25, // ... and genuine first-level collisions of the default digester
-				Keep: 15, // some handed-back containers are kept and used further through their old handles
+				Keep:         15, // some handed-back containers are kept and used further through their old handles
 			})
 		},
 		Or:   func(*Case) Oracles { return Oracles{CmpEvery: 1, CheckHandles: true} },
@@ -112,8 +112,8 @@ func init() {
 					{{K: "map", Addr: 1, TI: 2}, {K: "arr", Addr: 1, TI: 4}},
 				},
 				MaxBulk: 80, Keys: []int{12, 64, 300},
-				ValW:    val, MaxDepth: 3, MaxElems: 5, AcqW: [3]int{7, 2, 1}, Keep: keep,
-				DigRootsPct: 30, // root maps with colliding digests: inline / external collision groups
+				ValW: val, MaxDepth: 3, MaxElems: 5, AcqW: [3]int{7, 2, 1}, Keep: keep,
+				DigRootsPct:  30, // root maps with colliding digests: inline / external collision groups
 				HipGroupsPct: 20,
 			})
 		}
@@ -123,14 +123,16 @@ func init() {
 	// ------------------------------------------------------------------ C05
 	registerEngine(engPropSpec{
 		ID: "C05", G: structG(0, valAll),
-		Or:  func(*Case) Oracles { return Oracles{CmpEvery: 8, Tree: true, Verify: true} },
-		Non: func(s *CaseStats) bool { return multi(s) && (s.Has("slab_near_band_edge") || s.Has("inlined_child_near_limit")) },
+		Or: func(*Case) Oracles { return Oracles{CmpEvery: 8, Tree: true, Verify: true} },
+		Non: func(s *CaseStats) bool {
+			return multi(s) && (s.Has("slab_near_band_edge") || s.Has("inlined_child_near_limit"))
+		},
 		Rule: "multi-slab tree with a slab within 16 bytes of a band edge or an inlined child within 2 bytes of its limit",
 	})
 	// ------------------------------------------------------------------ C06
 	registerEngine(engPropSpec{
 		ID: "C06", G: structG(0, valAll),
-		Or:  func(*Case) Oracles { return Oracles{CmpEvery: 16, Sizes: true, VerifySer: true} },
+		Or:   func(*Case) Oracles { return Oracles{CmpEvery: 16, Sizes: true, VerifySer: true} },
 		Post: endCommitFresh,
 		Non: func(s *CaseStats) bool {
 			return s.Has("slab_with_inlined_child") && s.Has("last_leaf_without_link") && s.Has("root_split")
@@ -140,7 +142,9 @@ func init() {
 	// ------------------------------------------------------------------ C07
 	registerEngine(engPropSpec{
 		ID: "C07", G: structG(0, valNested),
-		Or:  func(*Case) Oracles { return Oracles{CmpEvery: 16, RoundTrip: true, VerifySer: true, FreshAtCommit: true} },
+		Or: func(*Case) Oracles {
+			return Oracles{CmpEvery: 16, RoundTrip: true, VerifySer: true, FreshAtCommit: true}
+		},
 		Post: endCommitFresh,
 		Non: func(s *CaseStats) bool {
 			return s.Has("slab_with_inlined_child") && s.Extra["registers_checked"] >= 3 && (s.Has("multi_slab") || s.Has("standalone_child") || s.Has("large_value_slab"))
@@ -163,7 +167,9 @@ func init() {
 			g.W["drop"] = 6
 			return g
 		},
-		Or:  func(*Case) Oracles { return Oracles{CmpEvery: 16, Health: true, BlindDispose: true, QuietAfterEvict: true} },
+		Or: func(*Case) Oracles {
+			return Oracles{CmpEvery: 16, Health: true, BlindDispose: true, QuietAfterEvict: true}
+		},
 		Post: func(e *Engine, cs *Case) error { return e.emptyEverything() },
 		Non: func(s *CaseStats) bool {
 			n := 0
@@ -187,7 +193,9 @@ func init() {
 			g.MaxElems = 6
 			return g
 		},
-		Or:  func(*Case) Oracles { return Oracles{CmpEvery: 1, CheckHandles: true, Inline: true, Verify: true, FreshAtCommit: true} },
+		Or: func(*Case) Oracles {
+			return Oracles{CmpEvery: 1, CheckHandles: true, Inline: true, Verify: true, FreshAtCommit: true}
+		},
 		Post: endCommitFresh,
 		Non: func(s *CaseStats) bool {
 			return s.Has("old_handle_after_parent_restructure") && (s.Has("inline_to_standalone") || s.Has("standalone_to_inline")) && s.Has("op_on_depth>=2")
